@@ -14,7 +14,8 @@ Which theorem is about which model:
   depth over the infix/prefix operators and binding powers of the REAL table (`Ecal.Gen.C08`, regenerated
   from parser.go / prettyprinter.go on every run), the Pratt parser (`run`, `ndPrefix`, `ldInfix`,
   `ndInner`), and the printer restricted to operator trees (children first, parentheses by
-  `ppNeedsBrackets`). Theorems `printer_brackets_suffice`, `print_parse_expr_partial`,
+  `ppNeedsBrackets` — `annotW br` for any rule `br`; the drivers run `br = realBr`, the rule extracted from the
+  Go source). Theorems `printer_brackets_suffice`, `print_parse_expr_partial`, `print_parse_expr_real_rule_partial`,
   `print_idempotent_expr_partial`, `mul_right_brackets_witness` are about this model.
 * **Real printer and lexer models**: `quote_lex_roundtrip` is about `Ecal.Print.quote` (Printer.lean) and
   `Ecal.Lex.lexValue` (Lexer.lean) — the functions the drivers of C08 / C07 / C18 run.
@@ -45,22 +46,48 @@ theorem gen_table_ok : tableOk = true := by decide
 /-- The real table has the operators the model talks about (non-vacuity of everything below). -/
 theorem gen_table_nonempty : infixOps.length ≥ 19 ∧ prefixOps.length ≥ 3 := by decide
 
-/-- On every pair of operator heads of the real table and every child index, the expression-level
-    rule `nb` is the rule extracted from prettyprinter.go — an obligation whenever `ppNeedsBrackets` could be
-    translated (`shapeOk`; the translator accepts if/switch/early-return forms, set literals and inlined
-    helpers). If it could not, the rule is "not established": the check says so in its evidence and runs
-    the exhaustive depth-2/3 operator nestings through the real printer instead. -/
-theorem abstract_rule_is_generated_rule : shapeOk = true →
-    (allHeads.all fun p => allHeads.all fun c => [0, 1, 2].all fun i => [true, false].all fun pure =>
-      nb realPowers realExc p c i pure == needsBrackets (bnOf p) (bnOf c pure) i) = true := by decide
+/-- Boolean form of sufficiency over the real table: wherever parentheses are NECESSARY (`need`), the rule `br`
+    writes them — except at the known exception (right operand under a product with a pure chain) -/
+def suffCheck (br : Head → Head → Nat → Bool → Bool) : Bool :=
+  allHeads.all fun p => allHeads.all fun c => [0, 1].all fun i => [true, false].all fun pure =>
+    !(need realPowers p c i) || br p c i pure ||
+      (match p, c with | .bin K, .bin k => decide (i > 0) && realExc K k && pure | _, _ => false)
 
-/-- … and so is the rule of the full printer model (Printer.lean); for `pure = false` the child node carries
-    a left operand `%` of its own binding, so that the model's own `isProductChain` answers false where the
-    chain test is reached. -/
-theorem model_rule_is_generated_rule : shapeOk = true →
-    (allHeads.all fun p => allHeads.all fun c => [0, 1, 2].all fun i => [true, false].all fun pure =>
-      Ecal.Print.needsBrackets (nodeOf p) (nodeOf c pure) i ==
-        needsBrackets (bnOf p) (bnOf c (Ecal.Print.isProductChain (nodeOf c pure) (nodeOf p).binding)) i) = true := by decide
+/-- **The bracket rule EXTRACTED from prettyprinter.go suffices** on the real table — an obligation whenever
+    `ppNeedsBrackets` could be translated (`shapeOk`). It demands sufficiency, not equality with a hand-written
+    rule: a printer edit that writes MORE parentheses keeps it true, one that drops necessary parentheses breaks
+    it. (If the rule could not be translated it is "not established": the check says so in its evidence and runs
+    the exhaustive depth-2/3 operator nestings through the real printer instead.) -/
+theorem generated_rule_suffices : shapeOk = true → suffCheck genBr = true := by decide
+
+/-- the hand port in Printer.lean (the fallback the printer model runs when the rule is not established) suffices -/
+theorem hand_port_suffices :
+    suffCheck (fun p c i pure => Ecal.Print.needsBrackets (nodeOf p) (nodeOf c pure) i) = true := by decide
+
+theorem suff_of_check (br : Head → Head → Nat → Bool → Bool) (h : suffCheck br = true) :
+    Suff realPowers realExc br inTable := by
+  intro p c i pure hp hc hi hn
+  have hp' : p ∈ allHeads := by simpa [inTable] using hp
+  have hc' : c ∈ allHeads := by simpa [inTable] using hc
+  have hi' : i ∈ [0, 1] := by
+    have : i = 0 ∨ i = 1 := by omega
+    rcases this with rfl | rfl <;> simp
+  have hpu : pure ∈ [true, false] := by cases pure <;> simp
+  have := List.all_eq_true.mp (List.all_eq_true.mp (List.all_eq_true.mp (List.all_eq_true.mp h p hp') c hc') i hi') pure hpu
+  simp only [hn, Bool.not_true, Bool.false_or, Bool.or_eq_true] at this
+  rcases this with h1 | h2
+  · exact Or.inl h1
+  · right
+    cases p with
+    | atom => simp at h2
+    | pre K => simp at h2
+    | bin K =>
+      cases c with
+      | atom => simp at h2
+      | pre k => simp at h2
+      | bin k =>
+        simp only [Bool.and_eq_true, decide_eq_true_eq] at h2
+        exact ⟨K, k, rfl, rfl, h2.1.1, h2.1.2, h2.2⟩
 
 /-- **Bracket rule of `return <value>`** (fixes/C08-return-operand-brackets): under every operator head of
     the real table — infix, prefix, `let`, `not`, sink attribute, either side — a return with a value is
@@ -139,6 +166,41 @@ theorem print_parse_expr_partial (e : Expr) (h : hasExc realPowers realExc e = f
 example : run realPowers 20 0 (printToks realPowers realExc
     (Expr.bin 1 (Expr.atom 0) (Expr.bin 1 (Expr.atom 1) (Expr.pre 2 (Expr.atom 2))))) =
     some (Expr.bin 1 (Expr.atom 0) (Expr.bin 1 (Expr.atom 1) (Expr.pre 2 (Expr.atom 2))), []) := by decide
+
+/-- the rule the driver's printers run (`realBr`: the extracted rule when established, else `nb`) suffices on the
+    real table -/
+theorem real_rule_suffices : Suff realPowers realExc realBr inTable := by
+  unfold realBr
+  by_cases h : shapeOk = true
+  · rw [if_pos h]; exact suff_of_check genBr (generated_rule_suffices h)
+  · rw [if_neg h]
+    intro p c i pure _ _ hi hn
+    exact nb_suff realPowers realExc real_bp_pos real_exc_tight p c i pure rfl rfl hi hn
+
+/-- **parse (print e) = e with the rule the printer models RUN** (`Ecal.C08.realBr` — `Ecal.Gen.C08.needsBrackets`
+    regenerated from the Go source; the full printer model `Ecal.Print.visit` applies the same extracted rule):
+    for every operator tree of any depth over the real table, outside the known class mul-right-brackets, the
+    fuel-indexed Pratt parser reads the printed tokens back to exactly `e`. -/
+theorem print_parse_expr_real_rule_partial (e : Expr) (hin : headsIn inTable e = true)
+    (h : hasExc realPowers realExc e = false) :
+    ∃ fuel, run realPowers fuel 0 (annotW realPowers realExc realBr e).flat = some (e, []) := by
+  have hok := annotW_ok realPowers realExc realBr inTable real_bp_pos real_rule_suffices e 0 0 hin h
+    (adm_zero realPowers real_bp_pos e)
+  have hr := admissible_parses realPowers _ hok
+  rw [strip_annotW] at hr
+  exact Run.toFun realPowers hr
+
+/-- **Any sufficient rule works**: more parentheses than necessary never hurt. -/
+theorem print_parse_expr_any_sufficient_rule (br : Head → Head → Nat → Bool → Bool) (ok : Head → Bool)
+    (hs : Suff realPowers realExc br ok) (e : Expr) (hin : headsIn ok e = true)
+    (h : hasExc realPowers realExc e = false) :
+    ∃ fuel, run realPowers fuel 0 (annotW realPowers realExc br e).flat = some (e, []) := by
+  have hok := annotW_ok realPowers realExc br ok real_bp_pos hs e 0 0 hin h (adm_zero realPowers real_bp_pos e)
+  have hr := admissible_parses realPowers _ hok
+  rw [strip_annotW] at hr
+  exact Run.toFun realPowers hr
+
+example : headsIn inTable (Expr.bin 1 (Expr.atom 0) (Expr.bin 1 (Expr.atom 1) (Expr.pre 2 (Expr.atom 2)))) = true := by decide
 
 /-- **Idempotence on operator trees**: printing what the parser reads from the printed text gives the
     same text (comment-free, blank-line-free expressions; outside `mul-right-brackets`). -/
